@@ -101,7 +101,7 @@ Definition bcompute (s : bstate) : bstate :=
   bcomplete (bmk its (bfin s) (bout s) (S (bruns s)) (bsubs s) (blog s ++ lg) (binner s ++ rs))
             (match f with
              | Some e => Err e
-             | None => match bfin s with PRet _ => Ok VNone | PRaise e | PBase e => Err e end
+             | None => match bfin s with PRet _ => Ok VNone | PRaise _ e | PBase e => Err e | PDouble => Err E_ALREADY end
              end).
 
 Inductive bop :=
